@@ -480,4 +480,16 @@ func init() {
 		Old:    "\tvar buffer bytes.Buffer\n\n\tif n.Ident != \"\" {\n\t\tbuffer.WriteString(n.Ident)",
 		New:    "\tvar buffer bytes.Buffer\n\n\tif n.ExplicitPolarity != nil && *n.ExplicitPolarity == types.NEGATIVE {\n\t\tbuffer.WriteString(\"-\")\n\t}\n\tif n.Ident != \"\" {\n\t\tbuffer.WriteString(n.Ident)",
 		Expect: "(*process.SendForm).String | name-after-literal"})
+	addFixture(Fixture{Name: "forward-hands-one-message-to-every-provider", Rule: "R-RELAY-ONCE", File: "process/transition.go",
+		Old:    "\t\t// Depending on the message type, recreate a corresponding process\n\t\tswitch message.Rule {\n\t\tcase SND:",
+		New:    "\t\tif len(process.Providers) > 1 && message.Rule == CLS {\n\t\t\tfor _, provider := range process.Providers {\n\t\t\t\tprovider.Channel <- message\n\t\t\t}\n\t\t\tprocess.terminate(re)\n\t\t\treturn\n\t\t}\n\t\t// Depending on the message type, recreate a corresponding process\n\t\tswitch message.Rule {\n\t\tcase SND:",
+		Expect: "(*process.ForwardForm).Transition | message-send"})
+	addFixture(Fixture{Name: "explicit-self-argument-not-checked-without-shadow", Rule: "R-PROVIDER-TEST", File: "process/typechecker.go",
+		Old:    "\t\tif !p.parameters[0].IsSelf && !(providerShadowName != nil && providerShadowName.Ident == p.parameters[0].Ident) {",
+		New:    "\t\tif !p.parameters[0].IsSelf && providerShadowName != nil && providerShadowName.Ident != p.parameters[0].Ident {",
+		Expect: "(*process.CallForm).typecheckForm | provider-test"})
+	addFixture(Fixture{Name: "signature-environment-built-before-the-gate", Rule: "R-UNFOLD-AFTER-GATE", File: "process/typechecker.go",
+		Old:    "\tassignTypesToProcessProviders(processes)\n\n\t// Start with some preliminary check on the labelled types",
+		New:    "\tassignTypesToProcessProviders(processes)\n\t_ = produceFunctionDefinitionsEnvironment(*globalEnv.FunctionDefinitions, types.ProduceLabelledSessionTypeEnvironment(*globalEnv.Types))\n\n\t// Start with some preliminary check on the labelled types",
+		Expect: "unfold-reaching-call"})
 }
